@@ -51,6 +51,7 @@ def fold(seq, foam=False):
 
 def process(ctx: Ctx, cases: list[dict]) -> None:
     from dictIO import DictReader, DictWriter
+    pending = []      # (case, step, request, expected text)
     for c in cases:
         fmt = c["fmt"]
         seq = [(m, dec(d)) for m, d in c["seq"]]
@@ -77,19 +78,23 @@ def process(ctx: Ctx, cases: list[dict]) -> None:
             ctx.violation("write sequence raises", c, repr(e), "no exception"); continue
         if ctx.oracle_only or fmt == "json":
             continue
-        # model: replay the sequence through writeStep, feeding back its own output
-        cur = None
+        # model: every step is replayed through writeStep on the bytes the implementation left behind (equal to the model's
+        # own previous output as long as no disagreement has been reported for this sequence)
         for step, (mode, d) in enumerate(seq):
             if step >= len(texts):
                 break
-            m = ctx.driver([{"op": "write_step", "fl": fmt, "existing": cur, "mode": mode, "e": enc_entries(canon_model_floats(d)), "start": -1}])[0]
+            pending.append((c, step, {"op": "write_step", "fl": fmt, "existing": texts[step - 1] if step else None, "mode": mode,
+                                      "e": enc_entries(d), "start": -1}, texts[step]))
+    if pending:
+        bad = set()
+        for (c, step, _, want), m in zip(pending, ctx.driver([p[2] for p in pending])):
+            if id(c) in bad:
+                continue
             if not (isinstance(m, dict) and "text" in m):
-                ctx.unsupported += 1
-                break
-            if m["text"] != texts[step]:
-                ctx.disagree(f"bytes of the target after write #{step} (mode {mode!r})", {**c, "seq": c["seq"][: step + 1]}, m["text"], texts[step])
-                break
-            cur = m["text"]
+                ctx.unsupported += 1; bad.add(id(c))
+            elif m["text"] != want:
+                ctx.disagree(f"bytes of the target after write #{step} (mode {c['seq'][step][0]!r})", {**c, "seq": c["seq"][: step + 1]}, m["text"], want)
+                bad.add(id(c))
 
 
 def canon_model_floats(d):
